@@ -239,7 +239,8 @@ PROPS["C04"] = dict(
              "fact extractor redis_command_groups (go/ast): each of the five announce-path methods of storage/redis/peer_store.go issues ONE atomic membership command group "
              "(MULTI…EXEC or a single command) first and only INCR/DECR-type commands afterwards — the shape of RedisConc.first; Redis executing MULTI…EXEC atomically is trusted"],
     assumptions=["Redis: for EVERY interleaving of round trips (theorem Redis_quiescent_sequential) the state at quiescent points is the sequential model's state for the order of the "
-                 "first round trips, results included; reads (two round trips) and the expiry pass are not of that shape: expiry concurrent with puts is not claimed (D4, DESIGN §6)"],
+                 "first round trips, results included — the collector's two optimistic command groups per swarm key (after the repairs D4, D16) are operations of that theorem; "
+                 "reads (two round trips) are not of that shape; termination of the collector's re-read loop is not claimed"],
 )
 
 
